@@ -61,12 +61,12 @@ def oracle(case, out):
     # dropped, popped afterwards, on a resource that had unread data before that poll, must be Ready
     # (a poll may return early after delivering thread-pool results: require two polls)
     polls = [i for i, st in enumerate(steps) if st[0] == 5 and st[1] >= 5]
-    last_poll = polls[-2] if len(polls) >= 2 and not any(st[0] in (1, 2, 3, 4) for st in steps[polls[-2]:]) else None
+    last_poll = polls[-2] if len(polls) >= 2 and not any(st[0] in (1, 2, 3, 4, 12) for st in steps[polls[-2]:]) else None
     if last_poll is not None and not any(st[0] == 10 for st in steps) and case[0] == 0:
         slot_of_step, ns = {}, 0
         touched = set()
         for i, (o, a, b) in enumerate(steps):
-            if o in (1, 2, 3):
+            if o in (1, 2, 3, 12):
                 slot_of_step[ns] = i
                 ns += 1
             if o in (7, 8, 9):
